@@ -128,7 +128,7 @@ def corpus():
 
 
 def main():
-    chk = Check('C03', extra_modules=['Bardolph.Proofs.VmSteps'])
+    chk = Check('C03', extra_modules=['Bardolph.Proofs.VmSteps', 'Bardolph.Props.C03Parse', 'Bardolph.Proofs.ParseTokBase'])
     chk.lean_phase(sections=set())
     rng = chk.rng
     n = 2500 if chk.thorough else 300
